@@ -20,6 +20,7 @@ const gormPkg = "gorm.io/gorm"
 
 func c13(r *Report) {
 	defer c13Seed5(r)
+	defer c13Seed6(r)
 	p := r.P
 	const dsub = "vdr/didsubject"
 	r.Explanation = "Static decision of the two-phase protocol behind all-or-nothing subject operations: (1) document versions are created only inside closures run by transactionHelper (plus one listed migration); Commit is called only by transactionHelper and IsCommitted only by the sweep; (2) in transactionHelper the first SQL transaction contains the operation and the Save of every change-log entry and fails when either fails; the commit loop stops at the first failing Commit (the next iteration is reachable only through a nil error) and lies between the two transactions; the second transaction deletes the document versions iff a Commit failed, else the change log, and its error takes priority; (3) the sweep deletes document versions only when IsCommitted reported false, decides per transaction id (the commit-status loop and the delete loop are different loops over the same group), restricted to versions older than a positive delay, and always clears the change log; (4) versions are consecutive (latest+1 with -1 as the no-document sentinel); (5) compensation table agreement: every table written in phase 1 that decides whether a subject exists (did) is removed on the failure branch and in the sweep for created DIDs, directly or through ON DELETE CASCADE edges read from the SQL migrations."
